@@ -231,4 +231,15 @@ theorem fallthrough_block_shrink_counterexample :
     outcomeLine (runProgram Known.fallShrink 64) = Known.fallShrink_go ∧
     Known.fallShrink_go ≠ Known.fallShrink_gno := by decide
 
+set_option maxRecDepth 100000 in
+set_option maxHeartbeats 4000000 in
+/-- `func inner() { defer func() { println("rec", recover() != nil) }(); panic("B") }`,
+`func main() { defer func() { inner(); println("after inner") }(); panic("A") }`: the deferred
+function continues after `inner` has recovered its own panic and prints `after inner` (then panic A
+goes on); the GnoVM abandons the deferred function (printed lines compared; the driver checks the
+whole outcome line against `Known.nestedRecover_go` on every run) -/
+theorem nested_recover_abandons_defer_counterexample :
+    (runProgram Known.nestedRecover 40).2 = Known.nestedRecover_goOut ∧
+    Known.nestedRecover_goOut ≠ Known.nestedRecover_gnoOut := by decide
+
 end GnoVerif.C04
